@@ -7,9 +7,12 @@ package main
 // (the elements stanzaEncoder completes), the id length and the closing tag.
 
 import (
+	"bytes"
 	"go/ast"
+	"go/printer"
 	"go/token"
 	"strconv"
+	"strings"
 )
 
 func init() {
@@ -222,6 +225,7 @@ func (g *gen) sessOut() {
 	g.p("Definition so_se_literals : list bytes := %s.\n", soList(lits))
 
 	g.rawReaderFacts()
+	g.stanzaEncoderSetup(sess)
 
 	g.p("\n(* ---- internal/attr/idgen.go, internal/stream/stream.go ---- *)\n")
 	idlen := -1
@@ -415,4 +419,61 @@ func (g *gen) rawReaderFacts() {
 	g.p("Definition so_raw_pop_before_dec : bool := %v.\n", popIdx >= 0 && popIdx < decIdx)
 	g.p("Definition so_raw_pop_cmp : bytes := hex \"%s\".\n", hexOf([]byte(cmp)))
 	g.p("Definition so_raw_pop_rhs_is_depth : bool := %v.\n", rhsDepth)
+}
+
+// soExpr prints an expression.
+func (g *gen) soExpr(e ast.Node) string {
+	var b bytes.Buffer
+	if err := printer.Fprint(&b, g.fset, e); err != nil {
+		return "?"
+	}
+	return b.String()
+}
+
+// stanzaEncoderSetup reads from negotiateSession how the session's stanza
+// encoder is configured: the expression given to the ns field of the
+// stanzaEncoder literal, the condition under which its from field is set and
+// the value it is set to.
+func (g *gen) stanzaEncoderSetup(sess *ast.File) {
+	g.p("\n(* ---- session.go negotiateSession: the configuration of the stanza encoder ---- *)\n")
+	fd := funcDecl(sess, "negotiateSession")
+	if fd == nil {
+		g.errs = append(g.errs, "session.go: negotiateSession not found")
+		return
+	}
+	nsExpr, cond, fromExpr := "", "", ""
+	lits := 0
+	ast.Inspect(fd, func(n ast.Node) bool {
+		switch x := n.(type) {
+		case *ast.CompositeLit:
+			if id, is := x.Type.(*ast.Ident); is && id.Name == "stanzaEncoder" {
+				lits++
+				for _, el := range x.Elts {
+					if kv, is := el.(*ast.KeyValueExpr); is {
+						if k, is := kv.Key.(*ast.Ident); is && k.Name == "ns" {
+							nsExpr = g.soExpr(kv.Value)
+						}
+					}
+				}
+			}
+		case *ast.IfStmt:
+			for _, st := range x.Body.List {
+				if as, is := st.(*ast.AssignStmt); is && len(as.Lhs) == 1 && len(as.Rhs) == 1 && soSelIs(as.Lhs[0], "from") {
+					if id, is := as.Lhs[0].(*ast.SelectorExpr).X.(*ast.Ident); is && id.Name == "se" {
+						cond, fromExpr = g.soExpr(x.Cond), g.soExpr(as.Rhs[0])
+					}
+				}
+			}
+		}
+		return true
+	})
+	if lits != 1 || nsExpr == "" || cond == "" {
+		g.errs = append(g.errs, "session.go: negotiateSession: stanzaEncoder literal with an ns field, or the assignment of se.from, not found")
+	}
+	safe := func(x string) string { // the text goes into a Coq comment
+		return strings.ReplaceAll(strings.ReplaceAll(x, "(*", "( *"), "*)", "* )")
+	}
+	g.p("Definition so_se_ns_field : bytes := hex \"%s\". (* %s *)\n", hexOf([]byte(nsExpr)), safe(nsExpr))
+	g.p("Definition so_se_from_cond : bytes := hex \"%s\". (* %s *)\n", hexOf([]byte(cond)), safe(cond))
+	g.p("Definition so_se_from_value : bytes := hex \"%s\". (* %s *)\n", hexOf([]byte(fromExpr)), safe(fromExpr))
 }
